@@ -36,18 +36,18 @@ def project(v):
     return {'t': 'data', 'v': []}
 
 
-def check_case(c):
+def check_case(c, querent=None, decoder=None):
     from pybufrkit.decoder import Decoder
     from pybufrkit.mdquery import MetadataExprParser, MetadataQuerent
     from pybufrkit.errors import MetadataExprParsingError
     expr = c['expr']
     feat = 'ed=%d,%s' % (c['e'], 'info' if c['info'] else 'full')
     try:
-        msg = Decoder().process(bytes(c['msg']), info_only=c['info'])
+        msg = (decoder or Decoder()).process(bytes(c['msg']), info_only=c['info'])
     except Exception as e:
         return (('mdquery', 'decode', type(e).__name__, feat), 'decoding the pool message raised %r' % (e,))
     try:
-        v = MetadataQuerent(MetadataExprParser()).query(msg, expr)
+        v = (querent or MetadataQuerent(MetadataExprParser())).query(msg, expr)
         got = project(v)
         err = None
     except MetadataExprParsingError:
@@ -74,6 +74,19 @@ def check_case(c):
 
 def _work(cs):
     return [check_case(c) for c in cs]
+
+
+def _work_shared(cs):
+    """The cases of a chunk through ONE querent (and one Decoder): the answer to an expression is a function of the message
+    it is put to - not of the messages the querent has answered it for before (other editions, section 2 present or not)."""
+    from pybufrkit.decoder import Decoder
+    from pybufrkit.mdquery import MetadataExprParser, MetadataQuerent
+    q, d = MetadataQuerent(MetadataExprParser()), Decoder()
+    out = []
+    for c in cs:
+        bad = check_case(c, querent=q, decoder=d)
+        out.append((('shared-querent',) + tuple(bad[0]), 'one querent for a series of messages: ' + bad[1]) if bad else None)
+    return out
 
 
 def info_on_damaged(run):
@@ -134,6 +147,17 @@ def run(run):
         chunks = [cases[i:i + 300] for i in range(0, len(cases), 300)]
         with mp.get_context('fork').Pool(14, initializer=fm94._init_worker) as pool:
             out = [x for c in pool.map(_work, chunks) for x in c]
+        # the same cases through shared querents: by expression, the messages without section 2 first - and in the reverse order
+        order = sorted(range(len(cases)), key=lambda i: (cases[i]['expr'], cases[i]['has2'], cases[i]['e'], cases[i]['info']))
+        for tag, idx in (('asc', order), ('desc', order[::-1])):
+            seq = [cases[i] for i in idx]
+            chunks = [seq[i:i + 600] for i in range(0, len(seq), 600)]
+            with mp.get_context('fork').Pool(14, initializer=fm94._init_worker) as pool:
+                out2 = [x for c in pool.map(_work_shared, chunks) for x in c]
+            for c, bad in zip(seq, out2):
+                run.traces += 1
+                if bad:
+                    run.violation(bad[0], bad[1], {'kind': 'mdquery-shared', 'case': c, 'note': 'needs the earlier cases of the chunk on the same querent (order %s)' % tag})
         nans = 0
         for c, bad in zip(cases, out):
             run.traces += 1
